@@ -56,7 +56,7 @@ CHX_QUICK = ["unsat_only_exact_8", "sat_only_prefix_8", "unknown_only_exact_8", 
              "err_else_8", "unsat_tail_6", "from_error_is_err", "from_error_default_rc"]
 CHX_THOROUGH = CHX_QUICK + ["err_keeps_stderr_8", "classify_8", "head_tail_4"]
 CHX_REACH = ["reach_unsat", "reach_sat", "reach_unknown", "reach_err_nonempty"]
-CHX_COST = {"classify_8": 150, "head_tail_4": 105, "err_else_8": 35,
+CHX_COST = {"classify_8": 150, "head_tail_4": 105, "err_else_8": 22,
             "err_keeps_stderr_8": 65, "non_unsat_cache_8": 45, "unsat_only_exact_8": 28, "sat_only_prefix_8": 25,
             "unknown_only_exact_8": 27, "unsat_tail_6": 6}
 
@@ -391,7 +391,7 @@ def route_p_finish(run, th, box):
                 # from_result raising makes solve_low_level raise, which halmos maps to "err")
                 if rp.get("truthy") is False:
                     run.violation(cls, f"from_result/{c.name}", f"SolverOutput classification violates {c.name}: "
-                                  f"{v.call} -> {rp.get('detail') or rp.get('raised') or rp.get('returned')}", w)
+                                  f"{call} -> {rp.get('detail') or rp.get('returned')}", w)
                 else:
                     run.inconc(cls, c.name, f"CrossHair counterexample {call} did not reproduce natively "
                                f"({rp.get('returned') or rp.get('raised') or rp.get('error')})")
@@ -459,9 +459,11 @@ def _jsonable(x):
 
 
 def _slim(obs: dict) -> dict:
-    o = dict(obs)
+    """observation without its volatile parts (times), so that the same witness hashes to the same replay file"""
+    o = {k: v for k, v in obs.items() if k not in ("seconds", "timeout", "slow")}
     if "log" in o:
-        o["log"] = [{k: v for k, v in r.items() if k != "t"} for r in o["log"]][:12]
+        o["log"] = sorted(({k: v for k, v in r.items() if k not in ("t", "lat", "done")} for r in o["log"]),
+                          key=lambda r: (r.get("q", ""), r.get("kind", "")))[:12]
     return o
 
 
@@ -789,7 +791,7 @@ def confirm_mismatches(run, pending, casc, ma, pool, seen_keys):
             key = violation_key(sc, o2, info2) if kind == "e2e" else \
                 f"main/exit={info2.get('observed_exit')}/some-not-pass={info2.get('some_selected_test_did_not_pass')}"
             w = {"kind": kind, "scenario": _jsonable(s2), "prediction": _jsonable(info2), "observed": _slim(o2),
-                 "other_observations": [_slim(b[1]) for b in bad[:-1]][:2], "valid_runs_agreeing_with_prediction": good}
+                 "confirmed_by": "two valid runs of the real code contradicting the prediction"}
             if kind == "e2e":
                 what = (f"run_test reports exit code {info2.get('observed_exitcode')} {info2.get('observed_label')} for "
                         f"outcomes {list(sc['outcomes'])} with scripted replies {[r and '>'.join(x for x in r if x) for r in sc['replies']]}"
@@ -853,6 +855,10 @@ def do_replay(run, path):
                 ok, desc = st == "mismatch", info
         print(f"replay {path}: {'REPRODUCED' if ok else 'not reproduced'} -- {desc}")
         run.sample({"replayed": path, "reproduced": ok})
+        # the (cheap) universal obligations of part 1 are decided in replay mode as well, so that the evidence of a
+        # replay run states what was proved next to the replayed witness
+        if w.get("kind") != "chx":
+            route_a(run, lambda kind, sc, scale=2.0: _worker((kind, sc, scale)))
         if ok:
             run.violation(blob.get("class", "replay"), blob.get("key", "replay"), blob.get("what", "replayed witness"), w)
         else:
